@@ -29,4 +29,16 @@ theorem gen_hypotest_bare_eq :
     ∀ tp ex es ca q0 : Bool, Gen.hypotest_bare tp ex es ca q0 = hypotestIsBare tp ex es ca := by
   decide
 
+/-- the exception class of a prerequisite failure, `"ok"` for none -/
+def prereqStr : Option PrereqErr → String
+  | none => "ok" | some .unspecifiedPOI => "UnspecifiedPOI" | some .invalidModel => "InvalidModel"
+
+/-- **prerequisites**: what the current `_check_hypotest_prerequisites` (and `hypotest` with the model's suggested flags) raises for a
+three-parameter model is the model's `checkPrerequisites`: `UnspecifiedPOI` without a POI, `InvalidModel` exactly when the flag *at the POI
+position* is set, nothing otherwise — for every POI position and every pattern of fixed flags -/
+theorem gen_hypotest_prereq_eq :
+    ∀ (poi : Option (Fin 3)) (f0 f1 f2 : Bool),
+      Gen.hypotest_prereq (poi.map (·.val)) f0 f1 f2 = prereqStr (checkPrerequisites (poi.map (·.val)) [f0, f1, f2]) := by
+  decide
+
 end Pyhf.Props.C08
